@@ -42,6 +42,10 @@ func c02Bases(seed int64, thorough bool) []*e2eCase {
 	mk(false, true, 3, false, 2, []int64{7000})
 	res[len(res)-1].Opts.Overwrite = true
 	res[len(res)-1].Pre = []e2eNode{{Rel: e2eName(0, 0), Size: 7000, Like: 1, DivergeAt: 6000}}
+	// an older peer (protocol 2: no resume, the existing file is truncated and rewritten) over a longer existing file
+	mk(true, false, 2, false, 0, []int64{1200})
+	res[len(res)-1].Opts.Overwrite = true
+	res[len(res)-1].Pre = []e2eNode{{Rel: e2eName(0, 0), Size: 6400, Kind: 2}}
 	// a resume over several hash steps (10 MiB each): the first step matches, the second differs
 	mk(true, true, 4, false, 2, []int64{25 << 20})
 	res[len(res)-1].Opts.Overwrite = true
